@@ -580,6 +580,59 @@ def _create_or_get(ctx, disp):
         raise AnalysisError("create_or_get_observer signature changed")
     typ, cond = ps[1], ps[2]
     F = ctx.norm.flat(fi)
+    # without an explicit condition every subscribed observer of the type
+    # matches: the default is an always-true predicate (a lambda / function
+    # returning True), or None replaced by one
+    a_ = fi.node.args
+    pos_ = a_.posonlyargs + a_.args
+    dflt = dict(zip([x.arg for x in pos_[len(pos_) - len(a_.defaults):]], a_.defaults))
+    dflt.update({k.arg: d for k, d in zip(a_.kwonlyargs, a_.kw_defaults) if d is not None})
+
+    def always_true(e, depth=0):
+        if depth > 3 or e is None:
+            return False
+        if isinstance(e, ast.Lambda):
+            return isinstance(e.body, ast.Constant) and e.body.value is True
+        if isinstance(e, ast.Name):
+            q = ctx.repo.resolve(fi.module.name, e.id)
+            f2 = ctx.repo.functions.get(q or "")
+            if f2 is not None and not isinstance(f2.node, ast.Lambda):
+                rets = [r for r in own_nodes(f2.node) if isinstance(r, ast.Return)]
+                return bool(rets) and all(isinstance(r.value, ast.Constant) and r.value.value is True for r in rets)
+            nested = [n for n in own_nodes(fi.node) if isinstance(n, ast.FunctionDef) and n.name == e.id]
+            if nested:
+                rets = [r for r in ast.walk(nested[0]) if isinstance(r, ast.Return)]
+                return bool(rets) and all(isinstance(r.value, ast.Constant) and r.value.value is True for r in rets)
+            v = fi.module.assigns.get(e.id)
+            return always_true(v, depth + 1) if v is not None else False
+        return False
+
+    d_ = dflt.get(cond)
+    if d_ is not None:
+        fallback = None
+        if isinstance(d_, ast.Constant) and d_.value is None:
+            # `if condition is None: condition = <...>` / a nested def bound to the name
+            for n in own_nodes(fi.node):
+                if isinstance(n, ast.Assign) and any(isinstance(t, ast.Name) and t.id == cond for t in n.targets):
+                    fallback = n.value
+                elif isinstance(n, ast.FunctionDef) and n.name == cond:
+                    fallback = ast.Name(id=cond, ctx=ast.Load())
+            ok_default = always_true(fallback)
+            shown = ast.unparse(fallback)[:60] if fallback is not None and not isinstance(fallback, ast.Name) else f"the nested function `{cond}`"
+        else:
+            ok_default = always_true(d_)
+            shown = ast.unparse(d_)[:60]
+        if ok_default:
+            chk.ok("R10.e", fi.qualname, fi.loc(), "default condition accepts every subscribed observer of the type")
+        else:
+            chk.violation(
+                "R10.e", fi, d_,
+                f"without an explicit condition the look-up uses {shown}, which can reject a subscribed observer of the requested "
+                "type: create_or_get_observer then builds a second one (a duplicate subscriber; for the singleton observers a "
+                "ValidationError) instead of returning the one that is subscribed",
+                loc=fi.loc(d_),
+            )
+            return
     loops = [n for n in own_nodes(F.node) if isinstance(n, ast.For) and _direct_subscribers_iter(n.iter) and isinstance(n.target, ast.Name)]
     if not loops:
         comp = [n for n in own_nodes(F.node) if isinstance(n, (ast.GeneratorExp, ast.ListComp)) and _direct_subscribers_iter(n.generators[0].iter)]
